@@ -117,14 +117,10 @@ def _compute_headers(cols, col_indices):
 	dtypes = []
 	seen = set()
 
-	for idx in col_indices:
-		col = cols[idx]
-
-		# Display name
-		disp = col._name or ""
-		display_names.append(disp)
-
-		# Sanitized dot name
+	# Dot names must agree with the table's accessors, so duplicates are
+	# detected over ALL columns, not only over the displayed ones
+	all_sanitized = []
+	for idx, col in enumerate(cols):
 		if col._name:
 			san = _sanitize_user_name(col._name)
 			if san is None:
@@ -136,7 +132,17 @@ def _compute_headers(cols, col_indices):
 				seen.add(san)
 		else:
 			san = f"col{idx}_"
-		sanitized_names.append(san)
+		all_sanitized.append(san)
+
+	for idx in col_indices:
+		col = cols[idx]
+
+		# Display name
+		disp = col._name or ""
+		display_names.append(disp)
+
+		# Sanitized dot name
+		sanitized_names.append(all_sanitized[idx])
 
 		# Dtype (with nullable indicator)
 		if col._dtype:
